@@ -153,6 +153,18 @@ func c09Join(r *rng, id string) {
 		return
 	}
 	defer joiner.m.Shutdown()
+	// sometimes the host remembers an earlier life of the joiner's name: another address, a higher
+	// incarnation, departed (or failed long ago, with reclaim on) - the restarted joiner comes back at 1
+	if r.chance(1, 3) {
+		k := uint32(2 + r.intn(3))
+		host.apply(mop{kind: 'A', node: "J", inc: k, addr: 1, md: r.intn(3)})
+		if r.chance(1, 2) || !hc.reclaim {
+			host.apply(mop{kind: 'D', node: "J", inc: k, from: "J"})
+		} else {
+			host.apply(mop{kind: 'D', node: "J", inc: k, from: "n1"})
+			host.apply(mop{kind: 'G', node: "J"})
+		}
+	}
 	// histories on both sides (the joiner may already know some members)
 	nt := 0
 	for _, mn := range []*mnode{host, joiner} {
@@ -282,6 +294,31 @@ func c09Cut(r *rng, id string) {
 		} else if members(rcv3.m) != base3 {
 			bads = append(bads, fmt.Sprintf("cut-request-changed-host-without-delegate:%d/%d", cut, len(req)))
 			break
+		}
+	}
+	// direction 1c: an exchange that fails authentication - the complete request of a peer without a
+	// key (compressed or not) at a host that has a key and verifies incoming traffic - changes nothing
+	if c.key == nil {
+		kc := rc
+		kc.key = mkKey(r, 16)
+		kc.verifyIn, kc.verifyOut = true, true
+		rcv4, err := newCnode(kc)
+		if err == nil {
+			ml.VerifAliveNode(rcv4.m, 6, "n6", []byte{10, 0, 0, 6}, 7946, []byte("m6"), []uint8{1, 5, 2, 0, 0, 0}, nil, false)
+			base4 := members(rcv4.m)
+			total++
+			func() {
+				defer func() {
+					if rec := recover(); rec != nil {
+						bads = append(bads, "panic:unauthenticated-request")
+					}
+				}()
+				ml.VerifHandleConn(rcv4.m, newFragConn(req, randCuts(r, len(req))))
+			}()
+			if members(rcv4.m) != base4 || len(rcv4.del.merged) > 0 {
+				bads = append(bads, fmt.Sprintf("unauthenticated-exchange-changed-host:comp%d", b2i(c.compress)))
+			}
+			rcv4.m.Shutdown()
 		}
 	}
 	// direction 2: the response is cut at every byte; the joiner must report an error and change nothing
